@@ -104,7 +104,7 @@ func (h *countHandler) ServeDIAM(c diam.Conn, m *diam.Message) {
 	h.mu.Unlock()
 }
 func (h *countHandler) saw(id uint32) bool { h.mu.Lock(); defer h.mu.Unlock(); return h.ids[id] }
-func (h *countHandler) get(k string) int { h.mu.Lock(); defer h.mu.Unlock(); return h.count[k] }
+func (h *countHandler) get(k string) int   { h.mu.Lock(); defer h.mu.Unlock(); return h.count[k] }
 
 // conn accept ... tls=1: the listener is a TLS listener (the handshake is the connection's own
 // business, not the accept loop's): A is a client that completes the handshake and sends a
@@ -415,4 +415,57 @@ func genConnAccept(r *RNG, n int, op string, emit func(string)) {
 func init() {
 	executors["conn accept"] = execConnAccept
 	connGens["accept"] = genConnAccept
+}
+
+// conn tlscn when=<before|after> peer=<garbage|eof>: a TLS connection whose handshake fails;
+// CloseNotify is requested before or after the failure. The connection is gone either way.
+func execConnTLSCN(toks []string) string {
+	when, _ := kvGet(toks, "when")
+	peer, _ := kvGet(toks, "peer")
+	sc, cc := net.Pipe()
+	defer sc.Close()
+	defer cc.Close()
+	tc := tls.Client(sc, &tls.Config{InsecureSkipVerify: true})
+	c, err := diam.NewConn(tc, "pipe", diam.HandlerFunc(func(diam.Conn, *diam.Message) {}), dict.Default)
+	if err != nil {
+		return "err"
+	}
+	var cn <-chan struct{}
+	if when == "before" {
+		cn = c.(diam.CloseNotifier).CloseNotify()
+	}
+	// the peer: takes the ClientHello and answers with something that is not TLS, or hangs up
+	go func() {
+		buf := make([]byte, 4096)
+		cc.SetReadDeadline(time.Now().Add(time.Second))
+		cc.Read(buf)
+		if peer == "garbage" {
+			cc.SetWriteDeadline(time.Now().Add(time.Second))
+			cc.Write([]byte("HTTP/1.1 400 Bad Request\r\n\r\n"))
+			time.Sleep(20 * time.Millisecond)
+		}
+		cc.Close()
+	}()
+	// give the handshake time to fail
+	time.Sleep(60 * time.Millisecond)
+	if when != "before" {
+		time.Sleep(5 * time.Millisecond)
+		cn = c.(diam.CloseNotifier).CloseNotify()
+	}
+	st := "open"
+	select {
+	case <-cn:
+		st = "closed"
+	case <-time.After(400 * time.Millisecond):
+	}
+	return fmt.Sprintf("cn=%s", st)
+}
+
+func init() {
+	executors["conn tlscn"] = execConnTLSCN
+	connGens["tlscn"] = func(r *RNG, n int, op string, emit func(string)) {
+		for i := 0; i < n; i++ {
+			emit(fmt.Sprintf("conn tlscn when=%s peer=%s seq=%d", []string{"before", "after"}[i%2], []string{"garbage", "eof"}[(i/2)%2], i))
+		}
+	}
 }
